@@ -194,6 +194,9 @@ class Fn:
         self.locals = list(self.params)
         self.stmts = []
         self.free_names = set()
+        self.local_types = set()
+        self.key_types = set()
+        self.module = rel[4:-3].replace('/mod', '').replace('/', '::')
         self.text = text
     # ---- lowering
     def atom(self, e):
@@ -207,12 +210,18 @@ class Fn:
             if len(p) == 1 and p[0] in self.locals: return "Atom.var %s" % lean_str(p[0])
             raise Unsupported("name " + "::".join(p))
         if k == "fieldacc" and e[1] == ("path", ["self"]): return "Atom.field %s" % lean_str(e[2])
-        if k == "call" and "::".join(e[1]) in IDENT_CALLS and len(e[2]) == 1: return self.atom(e[2][0])
+        if k == "call" and "::".join(e[1]) in IDENT_CALLS and len(e[2]) == 1:
+            self.key_types.add(e[1][0]); return self.atom(e[2][0])
         if k == "mcall" and e[2] in IDENT_METHODS and not e[3]: return self.atom(e[1])
         raise Unsupported("not an atom: " + repr(e)[:100])
     def callname(self, path):
         p = list(path)
         if len(p) == 1: self.free_names.add(p[0])
+        elif len(p) == 2 and p[0][0].isupper() and p[0] != "Self":
+            # `Type::function(..)`: the type has to be an item of THIS file (defined exactly once, not imported) and the emitted name says
+            # which module's type it is — `HeaderCrypto::new` in tbc_header/mod.rs is tbc_header::HeaderCrypto::new
+            self.local_types.add(p[0])
+            return self.module + "::" + "::".join(p)
         elif p[0] in ("srp_internal", "srp_internal_client") and len(p) == 2: self.free_names.add(p[0])
         elif p[0] == "crate" or p[0] == "self" or p[0] == "super": raise Unsupported("call through an absolute / relative path: " + "::".join(p))
         while len(p) > 1 and p[0] in MODULE_PREFIXES: p = p[1:]
@@ -222,8 +231,10 @@ class Fn:
         if k == "ref": return self.rhs(e[1])
         if k == "call":
             n = "::".join(e[1])
-            if n in IDENT_CALLS and len(e[2]) == 1: return "Rhs.atom (%s)" % self.atom(e[2][0])
-            if e[1][-1] == "randomized" and len(e[1]) == 2 and not e[2]: return "Rhs.draw %s" % lean_str(e[1][0])
+            if n in IDENT_CALLS and len(e[2]) == 1:
+                self.key_types.add(e[1][0]); return "Rhs.atom (%s)" % self.atom(e[2][0])
+            if e[1][-1] == "randomized" and len(e[1]) == 2 and not e[2]:
+                self.key_types.add(e[1][0]); return "Rhs.draw %s" % lean_str(e[1][0])
             if e[1][-1] in ("Ok", "Err", "Some"): raise Unsupported("constructor in value position")
             return "Rhs.call %s [%s]" % (lean_str(self.callname(e[1])), ", ".join(self.atom(a) for a in e[2]))
         if k == "struct":
@@ -306,6 +317,12 @@ def translate_one(repo, rel, fn):
         f = Fn(repo, rel, fn)
         tail = f.translate()
         check_provenance(f.text, rel, f.free_names)
+        for ty in sorted(f.local_types):
+            if gg.items_named(f.text, ty) != 1 or gg.no_foreign_globs(f.text, rel).get(ty):
+                raise Unsupported("%s: the type %s is defined %d times here and imported from %s" % (rel, ty, gg.items_named(f.text, ty), gg.use_imports(f.text).get(ty)))
+        for ty in sorted(f.key_types):
+            home = "crate::primes::" if ty in ("Generator", "LargeSafePrime") else "crate::key::"
+            gg.imported_only(f.text, rel, ty, {home + ty})
         # the prelude's constructors and key.rs's identity accessors are the ones the translator reads them as; no trait of this file lends
         # a method to a foreign type; nothing but doc / allow / must_use attributes, `pub` and `const` in front of the function
         gg.never_bound(f.text, rel, ["Ok", "Err", "Some", "None", "as_le_bytes", "from_le_bytes", "randomized", "randomize_data", "from"])
